@@ -6,7 +6,7 @@ from pw_verif.props._machine import run_program_case, worker_init  # noqa: F401
 
 PROP = "C17"
 LEVEL = "fault_enumeration"
-BUDGET = {"quick": 640, "thorough": 8000}
+BUDGET = {"quick": 960, "thorough": 10000}
 MIN_PER_SHARD = 10
 FAULTS = ["kraus_not_tp", "kraus_wrong_size", "povm_wrong_size", "custom_op_wrong_size", "op_wrong_kind", "outside_container",
           "annihilate_vacuum", "annihilate_vacuum", "missing_param", "use_destroyed", "use_destroyed", "shrink"]
